@@ -80,6 +80,12 @@ func Items(thorough bool) ([]item, error) {
 	ints := []int{1, 2, 3}
 	extras = append(extras, all, all[:2], all[:1], all[:0], all[1:], ints, ints[:2], ints[:0],
 		map[string]any{"k": all}, map[string]any{"k": all[:2]}, []any{all}, []any{all[:2]}, &all)
+	// values whose parts are prefixes of one backing array (on each side its own array): a comparison
+	// that remembers pairs of data pointers must not confuse a prefix with the longer slice
+	b12, b13, b12c := []any{float64(1), float64(2)}, []any{float64(1), float64(3)}, []any{float64(1), float64(2)}
+	i12, i13 := []int{1, 2}, []int{1, 3}
+	extras = append(extras, []any{b12[:1], b12[:2]}, []any{b13[:1], b13[:2]}, []any{b12c[:1], b12c}, []any{[]any{float64(1)}, []any{float64(1), float64(3)}},
+		[]any{i12[:1], i12}, []any{i13[:1], i13}, map[string]any{"a": b12[:1], "b": b12}, map[string]any{"a": b13[:1], "b": b13}, [][]int{i12[:1], i12}, [][]int{i13[:1], i13})
 	for i, x := range extras {
 		d := gen.Describe(x)
 		if seen[d] {
